@@ -100,6 +100,10 @@ def run(ctx):
                 sent = tplm.mutate_sentence(rng, sent)
             cases.append((gtext, tplm.sentence_text(sent).encode()))
             meta.append(("choice-commit", rules, None))
+    # every builtin token class in repetition / list / optional contexts, inputs matched to the end of the token list
+    for g, t in tplm.builtin_class_family():
+        cases.append((g, t))
+        meta.append(("builtin-class-at-end", None, None))
     # result rewriters (RetProcs) and runtime (Dyn) errors: what every combinator does with them (Model/TplRp.v)
     for g, t, rps in tplm.retproc_family():
         cases.append((g, t, rps))
